@@ -101,10 +101,9 @@ def runCase (j : Json) : E Json := do
     stepped.foldl (fun acc s => acc + (s.cols.filter f).size) 0
   let nMask := count fun c => NumOps.lt (norm c.r) (NumOps.small : K)
   let nGuardA := count fun c =>
-    !(NumOps.lt (norm c.r) (NumOps.small : K)) &&
-      NumOps.lt (NumOps.abs (dotc c.p (matVec A c.p))) (NumOps.small : K)
+    !(NumOps.lt (norm c.r) (NumOps.small : K)) && NumOps.isZero (dotc c.p (matVec A c.p))
   let nGuardB := count fun c =>
-    !(NumOps.lt (norm c.r) (NumOps.small : K)) && NumOps.lt (NumOps.abs c.gamma) (NumOps.small : K)
+    !(NumOps.lt (norm c.r) (NumOps.small : K)) && NumOps.isZero c.gamma
   let nGuardM := (mult.filter fun m => NumOps.isZero m).size
   let nat (n : Nat) : Json := Json.num (Lean.JsonNumber.fromNat n)
   pure <| Json.mkObj [
